@@ -347,6 +347,11 @@ RoPlanChanged(s) ==
       ELSE LET s1 == [s EXCEPT !.ro.next = newIdx, !.ro.fresh = TRUE, !.ro.hashOk = TRUE]
            IN  IF JumpWanted(s1) THEN DoCanaryJump(s1) ELSE s1
 
+\* isWorkloadRolledBack (fix FX-C10-completed-rollback-taken-for-release): in rollback as the finder sees it, or back at
+\* the stable revision recorded when the release started (a rollback the native controller has already completed).
+\* A Deployment's two revisions are hashed differently, so only the finder's answer counts there.
+RolledBack(s, old) == WlInRollback(s) \/ (~IsDeployment(s) /\ old.hasSub /\ old.stableRev # 0 /\ WlCanaryRev(s) = old.stableRev)
+
 \* ------------------------------------------------------- Rollout reconcile
 \* reconcileRolloutProgressing, dispatched on the PERSISTED reason; ns carries the new status being built
 RoProgressing(s, old) ==
@@ -358,10 +363,10 @@ RoProgressing(s, old) ==
                                                          !.stableRev = s.wl.stableRev, !.rid = WlRolloutID(s)]]
          IN  IF s.ro.condFresh THEN s1 ELSE [s1 EXCEPT !.ro.reason = "InRolling"]
     [] old.reason = "InRolling" ->
-         IF WlInRollback(s) /\ WlCanaryRev(s) # old.canaryRev
+         IF RolledBack(s, old) /\ WlCanaryRev(s) # old.canaryRev
          THEN [s EXCEPT !.ro.canaryRev = WlCanaryRev(s), !.ro.reason = "Cancelling"]
          ELSE IF s.user.paused THEN [s EXCEPT !.ro.reason = "Paused"]
-         ELSE IF old.canaryRev # 0 /\ WlCanaryRev(s) # old.canaryRev /\ ~WlInRollback(s) THEN RoContinuous(s)
+         ELSE IF old.canaryRev # 0 /\ WlCanaryRev(s) # old.canaryRev /\ ~RolledBack(s, old) THEN RoContinuous(s)
          ELSE IF old.hashSet /\ ~old.hashOk THEN RoPlanChanged(s)
          ELSE IF s.ro.state = "Completed" THEN [s EXCEPT !.ro.reason = "Finalising"]
          ELSE RunCanary(s)
